@@ -84,8 +84,13 @@ KAIFA_LAYOUT = {1: "U", 9: "TTTUUUUUU", 13: "TTTUUUUUUUUUU", 14: "TTTUUUUUUCUUUU
 
 def gen_kaifa_values(rng):
     n = rng.choice([1, 9, 13, 14, 18])
+    layout = KAIFA_LAYOUT[n]
+    if rng.random() < 0.06:
+        # a positional list of a length that is NOT one of the documented layouts (a foreign / future / damaged list): not
+        # well-formed for the theorems, compared with the model only - and it must leave no trace for the lists that follow
+        layout = (KAIFA_LAYOUT[rng.choice([1, 9, 13])] + "U" * rng.choice([1, 1, 2, 5, 8]))[: rng.choice([2, 3, 10, 12, 15, 19, 20])]
     vs = []
-    for i, k in enumerate(KAIFA_LAYOUT[n]):
+    for i, k in enumerate(layout):
         if k == "T":
             vs.append("T," + text(rng, exclude_len=(6,) if i == 0 else ()))
         elif k == "U":
